@@ -336,6 +336,16 @@ impl Ctx {
         self.notes.insert(key.to_string(), v);
     }
 
+    /// Merge entries into an object-valued note (used for the cross-build digest table).
+    pub fn merge_note_map(&mut self, key: &str, m: serde_json::Map<String, Value>) {
+        let e = self.notes.entry(key.to_string()).or_insert_with(|| json!({}));
+        if let Some(o) = e.as_object_mut() {
+            for (k, v) in m {
+                o.insert(k, v);
+            }
+        }
+    }
+
     pub fn cur(&self) -> (String, u64) {
         (self.cur_scheme.clone(), self.cur_idx)
     }
